@@ -187,7 +187,10 @@ func (app *Haqq) prepForZeroHeightGenesis(ctx sdk.Context, jailAllowedAddrs []st
 		}
 
 		validator.UnbondingHeight = 0
-		if applyAllowedAddrs && !allowedAddrsMap[addr.String()] {
+		if applyAllowedAddrs && !allowedAddrsMap[addr.String()] && !validator.Jailed {
+			// a jailed validator must not stay in the power index: ApplyAndReturnValidatorSetUpdates
+			// below panics on one ("should never retrieve a jailed validator from the power store")
+			app.StakingKeeper.DeleteValidatorByPowerIndex(ctx, validator)
 			validator.Jailed = true
 		}
 
